@@ -150,6 +150,9 @@ func c14Exec(run *ev.Run, c ev.Case) {
 		case "free":
 			for i := b.From; i < b.To; i++ {
 				n := 1 + i%40
+				if i%50 == 49 {
+					n = 0 // an empty repository
+				}
 				first := -1
 				switch i % 5 {
 				case 0:
@@ -172,13 +175,20 @@ func c14Exec(run *ev.Run, c ev.Case) {
 			// one repository, every injection point of its walk, one fault kind per case
 			n := 2 + r.Intn(5)
 			first := []int{0, -1, 5}[b.From%3]
-			faults := []string{"cancel", "modify-add", "modify-erase", "modify-replace", "ts-only", "double", "info-modify", "ts-only-erase", "cancel-only-renumber"}
+			faults := []string{"cancel", "modify-add", "modify-erase", "modify-replace", "ts-only", "double", "info-modify", "ts-only-erase", "cancel-only-renumber", "info-modify-repeatedly"}
 			f := faults[b.From%len(faults)]
 			// the walk issues at most 2 Get SDR per record
 			for at := 1; at <= 2*n+1; at++ {
 				p := c14P{Seed: b.Seed*77 + int64(b.From), NRecs: n, FirstID: first, Fault: f, At: at, Suite: b.From % 9, TS: (b.From / len(faults)) % 5}
 				if f == "double" {
 					p.At2 = at + 1 + r.Intn(3)
+				}
+				if f == "info-modify-repeatedly" {
+					// the repository changes (timestamp moved, reservation kept) just before the closing
+					// repository info of the first k walks, k = 1..4: every one of those walks is void
+					if at > 4 {
+						break
+					}
 				}
 				if f == "info-modify" {
 					if at > 2 {
@@ -271,6 +281,8 @@ func c14One(run *ev.Run, p c14P) {
 			modify(rp, "erase", true)
 		case "modify-replace", "info-modify":
 			modify(rp, "replace", true)
+		case "info-modify-repeatedly":
+			modify(rp, []string{"replace", "erase", "add"}[injected%3], false)
 		case "ts-only":
 			modify(rp, "replace", false)
 		case "ts-only-erase":
@@ -288,13 +300,21 @@ func c14One(run *ev.Run, p c14P) {
 			}
 		}
 	}
-	if p.Fault != "none" && p.Fault != "info-modify" {
+	if p.Fault != "none" && p.Fault != "info-modify" && p.Fault != "info-modify-repeatedly" {
 		repo.BeforeGet = func(nth int, rp *refbmc.Repo) {
 			if nth == p.At {
 				inject(rp, false)
 			}
 			if p.At2 > 0 && nth == p.At2 {
 				inject(rp, true)
+			}
+		}
+	}
+	if p.Fault == "info-modify-repeatedly" {
+		repo.BeforeInfo = func(nth int, rp *refbmc.Repo) {
+			// infos come in pairs (before and after a walk): the closing one of walks 1..At
+			if nth%2 == 0 && nth/2 <= p.At {
+				inject(rp, false)
 			}
 		}
 	}
@@ -329,6 +349,12 @@ func c14One(run *ev.Run, p c14P) {
 	sentFrom := e.T.Transmissions()
 	var got bmc.SDRRepository
 	pv, st := safe(func() { got, err = bmc.RetrieveSDRRepository(ctx, sess) })
+	if len(base) == 0 {
+		// an empty repository: the only thing to return is an empty set (and nothing may go wrong on the way)
+		base = append(base, c14Rec{rec: refbmc.SDRRecord{ID: 0xfffe, Type: 0xc0}})
+		base = base[:1]
+		versions[0] = nil
+	}
 	desc := fmt.Sprintf("repository of %d records (first ID %#x) fault %s before request %d/%d", p.NRecs, base[0].rec.ID, p.Fault, p.At, p.At2)
 	if p.Prior > 0 || p.Again > 0 {
 		desc += fmt.Sprintf(" after %d commands and %d retrievals on the session", p.Prior, p.Again)
@@ -363,6 +389,9 @@ func c14One(run *ev.Run, p c14P) {
 	}
 	if err != nil {
 		key := "C14:retrieval-failed"
+		if p.NRecs == 0 {
+			key = "C14:retrieval-failed:empty-repository"
+		}
 		for _, x := range base {
 			if x.want != nil && x.want.Identity == "" {
 				key = "C14:retrieval-failed:empty-id-string"
@@ -432,6 +461,11 @@ func c14One(run *ev.Run, p c14P) {
 		if rq.Kind == "reserve" {
 			lastResv = i
 		}
+	}
+	if lastResv < 0 && len(repo.Recs) == 0 && repo.Version == 0 {
+		// an empty repository: there is nothing to walk, so nothing to reserve
+		run.Event("empty-repositories-retrieved", 1)
+		return
 	}
 	if lastResv < 0 {
 		run.Violation("C14:no-reservation", desc+": no Reserve SDR Repository request seen", cs, nil)
